@@ -48,6 +48,9 @@ type operation struct {
 	name   Operation
 	task   *api.TaskInfo
 	reason string
+	// prevStatus is the status the task had before an Evict operation;
+	// it is restored when the eviction is discarded or refused.
+	prevStatus api.TaskStatus
 }
 
 // Statement structure
@@ -80,6 +83,8 @@ func (s *Statement) HasEvictions() bool {
 
 // Evict the pod
 func (s *Statement) Evict(reclaimee *api.TaskInfo, reason string) {
+	prevStatus := reclaimee.Status
+
 	// Update status in session
 	if job, found := s.ssn.Jobs[reclaimee.Job]; found {
 		job.UpdateTaskStatus(reclaimee, api.Releasing)
@@ -103,15 +108,16 @@ func (s *Statement) Evict(reclaimee *api.TaskInfo, reason string) {
 	}
 
 	s.operations = append(s.operations, operation{
-		name:   Evict,
-		task:   reclaimee,
-		reason: reason,
+		name:       Evict,
+		task:       reclaimee,
+		reason:     reason,
+		prevStatus: prevStatus,
 	})
 }
 
-func (s *Statement) evict(reclaimee *api.TaskInfo, reason string) error {
+func (s *Statement) evict(reclaimee *api.TaskInfo, reason string, prevStatus api.TaskStatus) error {
 	if err := s.ssn.cache.Evict(reclaimee, reason); err != nil {
-		if e := s.unevict(reclaimee); e != nil {
+		if e := s.unevict(reclaimee, prevStatus); e != nil {
 			klog.Errorf("Faled to unevict task <%v/%v>: %v.", reclaimee.Namespace, reclaimee.Name, e)
 		}
 		return err
@@ -120,11 +126,17 @@ func (s *Statement) evict(reclaimee *api.TaskInfo, reason string) error {
 	return nil
 }
 
-func (s *Statement) unevict(reclaimee *api.TaskInfo) error {
+func (s *Statement) unevict(reclaimee *api.TaskInfo, prevStatus api.TaskStatus) error {
+	// Victims are Running or Bound (api.PreemptableStatus): restore the status
+	// the task had before the eviction instead of assuming Running.
+	if prevStatus != api.Bound {
+		prevStatus = api.Running
+	}
+
 	// Update status in session
 	job, found := s.ssn.Jobs[reclaimee.Job]
 	if found {
-		job.UpdateTaskStatus(reclaimee, api.Running)
+		job.UpdateTaskStatus(reclaimee, prevStatus)
 	} else {
 		klog.Errorf("Failed to find Job <%s> in Session <%s> index when unevicting.",
 			reclaimee.Job, s.ssn.UID)
@@ -379,7 +391,7 @@ func (s *Statement) Discard() {
 		op.task.GenerateLastTxContext()
 		switch op.name {
 		case Evict:
-			err := s.unevict(op.task)
+			err := s.unevict(op.task, op.prevStatus)
 			if err != nil {
 				klog.Errorf("Failed to unevict task: %s", err.Error())
 			}
@@ -405,7 +417,7 @@ func (s *Statement) Commit() {
 		op.task.ClearLastTxContext()
 		switch op.name {
 		case Evict:
-			err := s.evict(op.task, op.reason)
+			err := s.evict(op.task, op.reason, op.prevStatus)
 			if err != nil {
 				klog.Errorf("Failed to evict task: %s", err.Error())
 			}
@@ -445,9 +457,10 @@ func SaveOperations(stmts ...*Statement) *Statement {
 			task := op.task.Clone()
 			task.EvictionOccurred = op.task.EvictionOccurred
 			stmtTmp.operations = append(stmtTmp.operations, operation{
-				name:   op.name,
-				task:   task,
-				reason: op.reason,
+				name:       op.name,
+				task:       task,
+				reason:     op.reason,
+				prevStatus: op.prevStatus,
 			})
 		}
 	}
@@ -463,6 +476,8 @@ func (s *Statement) RecoverOperations(stmt *Statement) error {
 		switch op.name {
 		case Evict:
 			s.Evict(op.task, op.reason)
+			// the saved task was cloned after its eviction: keep the status recorded at that time
+			s.operations[len(s.operations)-1].prevStatus = op.prevStatus
 		case Pipeline:
 			err := s.Pipeline(op.task, op.task.NodeName, op.task.EvictionOccurred)
 			if err != nil {
